@@ -103,7 +103,33 @@ type StringLiteralExpression struct {
 
 func (self StringLiteralExpression) Kind() ExpressionKind { return StringLiteralExpressionKind }
 func (self StringLiteralExpression) Span() errors.Span    { return self.Range }
-func (self StringLiteralExpression) String() string       { return fmt.Sprintf("\"%s\"", self.Value) }
+func (self StringLiteralExpression) String() string       { return QuoteString(self.Value) }
+
+// Renders a string as a string literal which the lexer reads back as the same string.
+func QuoteString(input string) string {
+	var out strings.Builder
+	out.WriteByte('"')
+	for _, char := range input {
+		switch char {
+		case '\\':
+			out.WriteString("\\\\")
+		case '"':
+			out.WriteString("\\\"")
+		case '\n':
+			out.WriteString("\\n")
+		case '\r':
+			out.WriteString("\\r")
+		case '\t':
+			out.WriteString("\\t")
+		case '\b':
+			out.WriteString("\\b")
+		default:
+			out.WriteRune(char)
+		}
+	}
+	out.WriteByte('"')
+	return out.String()
+}
 
 //
 // Ident expression
@@ -219,7 +245,7 @@ type ObjectLiteralField struct {
 func (self ObjectLiteralField) String() string {
 	var key string
 	if !util.IsIdent(self.Key.ident) {
-		key = fmt.Sprintf("\"%s\"", self.Key.ident)
+		key = QuoteString(self.Key.ident)
 	} else {
 		key = self.Key.ident
 	}
